@@ -43,9 +43,11 @@ IsRSch(sc) == sc \in {5, 129}
 
 NewObj == [st |-> "R", oti |-> FALSE, tl |-> None, cenc |-> None, fdt |-> None, cache |-> <<>>, csize |-> 0,
            parted |-> FALSE, blocks |-> <<>>, boff |-> 0, nslots |-> 0, alloc |-> 0, abytes |-> 0,
-           w |-> 0, ws |-> "none", bwsbn |-> 0, left |-> 0, wfail |-> 0, nwrite |-> 0, hint |-> None, nocache |-> FALSE]
+           w |-> 0, ws |-> "none", bwsbn |-> 0, left |-> 0, wfail |-> 0, nwrite |-> 0, hint |-> None, nocache |-> FALSE,
+           bad |-> FALSE]       \* bytes of an altered symbol were handed to the writer
 \* a block: symbols received, done flag, initialised flag, size
-NewBlk == [syms |-> {}, done |-> FALSE, init |-> FALSE, size |-> 0]
+\* poison: an altered symbol (payload bytes changed in transit) was accepted into the block before it was decoded
+NewBlk == [syms |-> {}, done |-> FALSE, init |-> FALSE, size |-> 0, poison |-> FALSE]
 
 InitRx(rcfg, wscript) ==
   [ rcfg |-> rcfg, ws |-> wscript,
@@ -57,7 +59,8 @@ InitRx(rcfg, wscript) ==
     foff |-> <<>>,             \* id -> estimated offset receiver clock - sender clock (seconds)
     fexp |-> <<>>,             \* id -> expired flag (state Expired is sticky)
     open |-> FALSE, closing |-> FALSE, nextw |-> 1, cb |-> <<>>,
-    fd |-> TRUE ]              \* oracle of the current call for the decoding of fountain codes (see Decodable)
+    fd |-> TRUE,               \* oracle of the current call for the decoding of fountain codes (see Decodable)
+    alt |-> FALSE ]            \* the payload of the packet of the current call was altered in transit
 
 \* effective scheme parameters of object o (or of the FDT with o = 0)
 Sch(S, o) == IF o = 0 THEN S.cfg.scheme ELSE SOb(S, o).scheme
@@ -138,12 +141,15 @@ Flush(S, r, o, ob, sbn, fuel) ==
            ELSE
            LET left1 == ob.left - bytes
                ob1 == [ob EXCEPT !.nwrite = nw, !.left = left1, !.bwsbn = sbn + 1, !.abytes = @ - blk.size, !.alloc = @ - 1,
+                                 !.bad = @ \/ blk.poison,
                                  !.boff = IF sbn = ob.boff THEN @ + 1 ELSE @,
                                  !.nslots = IF sbn = ob.boff THEN @ - 1 ELSE @,
                                  !.blocks = IF sbn = ob.boff THEN [b \in DOMAIN @ \ {sbn} |-> @[b]] ELSE [@ EXCEPT ![sbn].size = 0]]
            IN  IF left1 = 0 \/ (Var(r) = "complete-one-symbol-early" /\ left1 <= PE(S, o)) THEN
-                  \* all bytes written: MD5 (only intact traffic is modelled: it matches) -> complete
-                  LET c == Complete(r1, ob1) IN <<c[1], c[2], TRUE>>
+                  \* all bytes written: the MD5 differs iff altered bytes were written; it is compared when the FDT
+                  \* announced one and the check is enabled
+                  LET md5bad == o # 0 /\ ob1.bad /\ SOb(S, o).md5 # "" /\ r.ws.md5
+                      c == IF md5bad THEN Error(r1, ob1, FALSE) ELSE Complete(r1, ob1) IN <<c[1], c[2], TRUE>>
                ELSE Flush(S, r1, o, ob1, sbn + 1, fuel - 1)
 
 \* push_to_block2 + close-object flag; returns <<r, ob, ok>>
@@ -171,7 +177,9 @@ ToBlock(S, r, o, ob, p) ==
       ELSE
       LET syms == blk.syms \cup {p.esi}
           done == Decodable(Sch(S, o), k, PPar(S, o), syms, r.fd, Var(r))
-          ob2 == [ob1 EXCEPT !.blocks[p.sbn] = [syms |-> syms, done |-> done, init |-> TRUE, size |-> blen],
+          \* first copy wins: a symbol already held is not replaced
+          pz == blk.poison \/ (r.alt /\ p.esi \notin blk.syms)
+          ob2 == [ob1 EXCEPT !.blocks[p.sbn] = [syms |-> syms, done |-> done, init |-> TRUE, size |-> blen, poison |-> pz],
                              !.alloc = IF blk.init THEN @ ELSE @ + 1, !.abytes = IF blk.init THEN @ ELSE @ + blen]
       IN  IF done THEN Flush(S, r, o, ob2, p.sbn, ob2.nslots + 2) ELSE <<r, ob2, TRUE>>
 
@@ -337,9 +345,9 @@ DropObjs(r, os) ==
 DropAll(r) == DropObjs(r, SetToSeq(DOMAIN r.objects))
 
 \* MultiReceiver::push for the session's endpoint
-Push(S, r0, i, now, fd) ==
+Push(S, r0, i, now, fd, alt) ==
   LET p == S.pkts[i]
-      r == [r0 EXCEPT !.cb = <<>>, !.fd = fd] IN
+      r == [r0 EXCEPT !.cb = <<>>, !.fd = fd, !.alt = alt] IN
   IF p.A THEN
      IF ~r.open THEN r
      ELSE LET r1 == IF p.k = "fdt" /\ p.id >= 0 THEN PushFdt(S, r, i, now) ELSE r
